@@ -412,6 +412,11 @@ def run(ctx):
         leaves = e["git_leaves"]
         if len(leaves) >= 2 or x["extras"]:
             ctx.nontrivial(json.dumps([x["tree_id"], x["extras"], x["prefix"], x["reads"], x["via"]], sort_keys=True))
+    classes = {}
+    for v in ctx.violations + [rec for _f, rec in ctx.known_hits.values()]:
+        k = "+".join(v.get("classes", []))
+        classes[k] = classes.get(k, 0) + 1
+    ctx.cov["violation_classes"] = classes
     ctx.cov["trees"] = len({x["tree_id"] for x in owners})
     ctx.cov["git_audited"] = ctx.cov["trees"]
     ctx.cov["largest_tree_leaves"] = max(len(e["git_leaves"]) for e in events) if events else 0
